@@ -17,6 +17,7 @@ import (
 	"sync"
 	"sync/atomic"
 	"time"
+	"verifharness/internal/netx"
 
 	"github.com/ipni/go-libipni/apierror"
 	"github.com/ipni/go-libipni/find/model"
@@ -148,7 +149,7 @@ func (s *source) serveHTTP() error {
 	srv := sharedServers[s.idx]
 	if srv == nil {
 		idx := s.idx
-		srv = httptest.NewServer(http.HandlerFunc(func(w http.ResponseWriter, req *http.Request) {
+		srv = netx.NewServer(http.HandlerFunc(func(w http.ResponseWriter, req *http.Request) {
 			sharedMu.Lock()
 			cur := sharedCurrent[idx]
 			sharedMu.Unlock()
